@@ -138,6 +138,39 @@ func c15Cases(c *ctx) []c15Case {
 	add("undefined-nonterminals-only", "grammar g;\nstart = alpha beta gamma delta | epsilon zeta eta theta | iota kappa;\n")
 	add("undefined-nonterminals-in-handles", "grammar g;\n@left <start = start lambda mu>\n@right <start = nu xi>\nstart = \"a\" omicron | pi rho;\n")
 	add("shared-handles-in-levels", "grammar g;\n@left \"a\" \"b\" \"c\" \"d\" \"e\" <start = start \"a\"> <start = start \"b\">\n@right \"e\" \"d\" \"c\" \"b\" \"a\" <start = start \"b\"> <start = start \"a\">\nstart = start \"a\" | start \"b\" | \"c\" | \"d\" | \"e\";\n")
+	// cyclic grammars (A =>+ A), with a non-terminal outside the cycle that unit-derives into it, under every order of the
+	// names: what the table builder does with a cycle depends on hash order, so emerge has to report it up front
+	{
+		k := 0
+		for _, names := range [][]string{{"atom", "start", "term"}, {"start", "term", "unit"}, {"aa", "bb", "start"}, {"start", "zz", "aa"}, {"term", "start", "atom"}, {"mm", "start", "bb"}} {
+			// names[0], names[1] form the cycle; names[2] is the outsider
+			c1, c2, o := names[0], names[1], names[2]
+			rules := map[string]string{
+				c1: c2 + " | \"x\"",
+				c2: c1 + " | NUM",
+				o:  c2,
+			}
+			if c1 != "start" && c2 != "start" {
+				rules[o] = c2 + " | \"-\" " + c1
+			} else {
+				// start is on the cycle: make the outsider reachable
+				rules["start"] += " | \"-\" " + o
+			}
+			var b strings.Builder
+			b.WriteString("grammar cyc;\nNUM = /[0-9]+/\n")
+			for _, n := range []string{"start", c1, c2, o} {
+				if r, ok := rules[n]; ok {
+					fmt.Fprintf(&b, "%s = %s;\n", n, r)
+					delete(rules, n)
+				}
+			}
+			add(fmt.Sprintf("cycle%d", k), b.String())
+			k++
+		}
+		add("cycle-three", "grammar cyc;\nstart = aa | \"s\";\naa = bb | \"a\";\nbb = cc;\ncc = aa | \"c\";\n")
+		add("cycle-through-nullable", "grammar cyc;\nstart = aa;\naa = [\"x\"] bb {\"y\"} | \"a\";\nbb = aa | \"b\";\n")
+		add("self-loop-late", "grammar cyc;\nstart = \"s\" zz;\nzz = zz | \"z\";\n")
+	}
 	add("no-start", "grammar g;\na = b; b = c; c = \"x\";\n")
 	r := c.rng("gen")
 	for i := 0; i < c.n(12, 150); i++ {
